@@ -194,8 +194,8 @@ impl Property for C17 {
     }
     fn budget(&self, tier: Tier) -> (u32, u32) {
         match tier {
-            Tier::Quick => (3000, 8),
-            Tier::Thorough => (60000, 16),
+            Tier::Quick => (8000, 8),
+            Tier::Thorough => (400000, 16),
         }
     }
     fn required_counters(&self) -> Vec<&'static str> {
